@@ -800,7 +800,11 @@ def run(tier, seed=0, replay=None, procs=None, only=None):
         t1 = time.time()
         cv, notes = cli_equivalence(tier)
         print(f'[C20] grammar queries {gt:.1f}s, cli equivalence {time.time() - t1:.1f}s')
-        return cv, [], dict(cli_equivalence_datasets=notes)
+        from symx import envsweep
+        ev, _, extra = envsweep.late([
+            ('clip_from_command_line', 'clip from the command line succeeds on valid input',
+             lambda v: v['status'] == 0 and v['exists'] and v['shape'] == [2, 2, 2] and v['units'] == 'days since 1990-01-01 00:00:00 +10:00')])()
+        return cv + ev, [], dict(cli_equivalence_datasets=notes, **extra)
     return main_run(
         PROP, tier, cs, functions=functions(), seed=seed, procs=procs, late_checks=late,
         extra_violations=gv + fv, extra_errors=ge,
